@@ -113,6 +113,8 @@ where
     ) {
         #[cfg(feature = "verif")]
         crate::verif_hooks::observer_push(
+            self.iterations,
+            self.step_length,
             variables.τ,
             variables.κ,
             &variables.x,
